@@ -4,6 +4,7 @@ import (
 	"flag"
 	"fmt"
 	"math/rand"
+	"net"
 	"sync/atomic"
 	"time"
 
@@ -73,7 +74,7 @@ func init() {
 			// every second and third round the backend demands authentication (password / the DSE authenticator with its
 			// challenge round): the control connection must register for events whichever way its handshake went
 			auth := []string{"", "dse", "password"}[r%3]
-			e, err := env.Start(env.Options{Nodes: 2, NumConns: 1, Hooks: false, Tracer: t, Keyspaces: []string{"ks"}, BackendAuth: auth})
+			e, err := env.Start(env.Options{Nodes: 2, NumConns: 1, Hooks: false, Tracer: t, Keyspaces: []string{"ks"}, BackendAuth: auth, RefreshWindow: 100 * time.Millisecond})
 			if err != nil {
 				return err
 			}
@@ -227,6 +228,36 @@ func init() {
 					atomic.StoreInt64((*int64)(&e.C.SlowStart), 0)
 					settle()
 				}
+			}
+			// events that the proxy has already read are delivered even if the control connection dies right afterwards: the
+			// cluster loop is busy with a host refresh (a topology read that takes 300 ms) while 8 schema changes arrive and
+			// are read; 120 ms later the node drops the control connection
+			if len(clients) > 0 && e.C.ControlConn() != nil {
+				atomic.StoreInt64((*int64)(&e.C.PeersDelay), int64(300*time.Millisecond))
+				if cc := e.C.ControlConn(); cc != nil {
+					o := net.ParseIP(cc.N.IP).To4()
+					nev++
+					e.C.EmitEvent(fmt.Sprintf("e%d", nev), "topology", &message.TopologyChangeEvent{ChangeType: primitive.TopologyChangeTypeNewNode,
+						Address: &primitive.Inet{Addr: o, Port: int32(e.C.Port)}})
+				}
+				time.Sleep(170 * time.Millisecond) // the refresh window (100 ms) has passed: the refresh is waiting for its answer
+				for b := 0; b < 8; b++ {
+					nev++
+					if e.C.EmitEvent(fmt.Sprintf("e%d", nev), "schema", schemaEvent(rnd, nev)) > 0 {
+						st.Emits++
+					}
+					st.Schema++
+				}
+				time.Sleep(120 * time.Millisecond)
+				if cc := e.C.ControlConn(); cc != nil {
+					cc.Close("dropctrl-after-events")
+				}
+				atomic.StoreInt64((*int64)(&e.C.PeersDelay), 0)
+				deadline := time.Now().Add(5 * time.Second)
+				for time.Now().Before(deadline) && e.C.ControlConn() == nil {
+					time.Sleep(20 * time.Millisecond)
+				}
+				settle()
 			}
 			// burst: many schema changes back to back (a DROP KEYSPACE with many tables); each must still reach every
 			// registered client exactly once
